@@ -88,7 +88,9 @@ where
 		use_test_rng,
 	)?;
 	for t in &tx {
-		if t.tx_type == TxLogEntryType::TxReceived {
+		// (a received transaction that was reorganised away is still the same
+		// transaction: it must not be received a second time either)
+		if t.tx_type == TxLogEntryType::TxReceived || t.tx_type == TxLogEntryType::TxReverted {
 			return Err(Error::TransactionAlreadyReceived(ret_slate.id.to_string()));
 		}
 	}
